@@ -118,38 +118,47 @@ theorem trimWs_quote (s : Str) : trimWs (quote s) = quote s := by
 
 theorem unescape_no_backslash (s : Str) (h : ∀ c ∈ s, c ≠ '\\') : unescape s = s := by
   induction s with
-  | nil => rfl
+  | nil => rw [unescape]
   | cons c r ih =>
     have hc : c ≠ '\\' := h c (by simp)
     have ih' := ih (fun x hx => h x (by simp [hx]))
-    unfold unescape
-    split
-    · rename_i heq; cases heq
-    · rename_i heq; simp only [List.cons.injEq] at heq; exact absurd heq.1 hc
-    · rename_i heq; simp only [List.cons.injEq] at heq; exact absurd heq.1 hc
-    · rename_i heq
-      simp only [List.cons.injEq] at heq
-      obtain ⟨h1, h2⟩ := heq
-      subst h1; subst h2
-      rw [ih']
+    rw [unescape]
+    · rw [ih']
+    all_goals (intros; rename_i hh _; exact absurd hh hc)
 
-theorem unmarshalString_quote (s : Str) (hs : ∀ c ∈ s, isSafe c = true) : unmarshalString (quote s) = .ok s := by
+theorem utf8Encode_ascii (s : Str) (h : ∀ c ∈ s, isAscii c = true) : utf8Encode s = s := by
+  induction s with
+  | nil => rfl
+  | cons c r ih =>
+    have hc : c.toNat < 0x80 := by simpa [isAscii] using h c (by simp)
+    have e : utf8EncodeRune c.toNat = [c] := by
+      have h1 : ¬ ((0xD800 ≤ c.toNat ∧ c.toNat ≤ 0xDFFF) ∨ 0x10FFFF < c.toNat) := by omega
+      simp only [utf8EncodeRune, h1, if_false, hc, if_true, Char.ofNat_toNat]
+    simp only [utf8Encode, List.flatMap_cons, e] at ih ⊢
+    rw [ih (fun x hx => h x (by simp [hx]))]
+    rfl
+
+theorem goUnquote_plain (s : Str) (hs : ∀ c ∈ s, isSafe c = true) (ha : ∀ c ∈ s, isAscii c = true) : goUnquote s = s := by
+  unfold goUnquote
+  rw [unescape_no_backslash, utf8Decode_ascii s ha, utf8Encode_ascii s ha]
+  intro c hc
+  have := hs c hc
+  simp only [isSafe, Bool.and_eq_true, bne_iff_ne, ne_eq, decide_eq_true_eq] at this
+  exact this.1.2
+
+theorem unmarshalString_quote (s : Str) (hs : ∀ c ∈ s, isSafe c = true) (ha : ∀ c ∈ s, isAscii c = true) :
+    unmarshalString (quote s) = .ok s := by
   unfold unmarshalString
   rw [valid_quote s hs, trimWs_quote]
   simp only [Bool.not_true, Bool.false_eq_true, if_false]
   unfold quote
   rw [List.cons_append]
   simp only [List.dropLast_concat]
-  congr 1
-  apply unescape_no_backslash
-  intro c hc
-  have := hs c hc
-  simp only [isSafe, Bool.and_eq_true, bne_iff_ne, ne_eq, decide_eq_true_eq] at this
-  exact this.1.2
+  rw [goUnquote_plain s hs ha]
 
 theorem parseInt256_print (bs : List UInt8) (h : bs.length = 32) : parseInt256 (printInt256 bs) = .ok bs := by
   unfold parseInt256 printInt256
-  rw [unmarshalString_quote _ (hexLower_safe bs)]
+  rw [unmarshalString_quote _ (hexLower_safe bs) (fun c hc => lowerHex_ascii c (hexLower_chars bs c hc))]
   simp [decodeChars_hexLower, h]
 
 /-! ### totality (no panic) of the scalar parsers -/
